@@ -19,6 +19,7 @@ import (
 func init() {
 	vhRegister("vh_C01_wiring", vh_C01_wiring)
 	vhRegister("vh_C01_wiring_twin", vh_C01_wiring_twin)
+	vhRegister("vh_C01_reverify", vh_C01_reverify)
 	vhRegister("vh_C06_expiry", vh_C06_expiry)
 	vhRegister("vh_C06_expiry_values", vh_C06_expiry_values)
 	vhRegister("vh_C08_sublayouts", vh_C08_sublayouts)
@@ -31,12 +32,49 @@ var vhProvenanceOK bool
 const vhLayoutTag = "LAYOUT-UNDER-VERIFICATION"
 
 func vhEvent(e string) { vhEvents = append(vhEvents, e) }
+var vhProvFailedAt string
+
 func vhProv(ok bool) {
 	if !ok {
+		if vhProvenanceOK && len(vhEvents) > 0 {
+			vhProvFailedAt = vhEvents[len(vhEvents)-1]
+		}
 		vhProvenanceOK = false
 	}
 }
 func vhFail(stage string) bool { return vBool("fail." + stage) }
+
+// vhExpectParam: when set, every stage must see the signed layout content with
+// its {P} markers replaced by exactly this value (vh_C01_reverify).
+var vhExpectParam string
+
+func vhLayoutContentOK(layout Layout) bool {
+	if vhExpectParam == "" {
+		return true
+	}
+	if len(layout.Steps) != 1 || len(layout.Inspect) != 1 {
+		return false
+	}
+	return vhStepContentOK(layout.Steps[0]) && vhInspContentOK(layout.Inspect[0])
+}
+
+func vhStepContentOK(st Step) bool {
+	if vhExpectParam == "" {
+		return true
+	}
+	return len(st.ExpectedCommand) == 2 && st.ExpectedCommand[0] == "run" && st.ExpectedCommand[1] == vhExpectParam &&
+		len(st.ExpectedMaterials) == 1 && len(st.ExpectedMaterials[0]) == 2 && st.ExpectedMaterials[0][1] == "m-"+vhExpectParam &&
+		len(st.ExpectedProducts) == 1 && len(st.ExpectedProducts[0]) == 2 && st.ExpectedProducts[0][1] == "p-"+vhExpectParam
+}
+
+func vhInspContentOK(in Inspection) bool {
+	if vhExpectParam == "" {
+		return true
+	}
+	return len(in.Run) == 2 && in.Run[0] == "sh" && in.Run[1] == vhExpectParam &&
+		len(in.ExpectedMaterials) == 1 && len(in.ExpectedMaterials[0]) == 2 && in.ExpectedMaterials[0][1] == "im-"+vhExpectParam &&
+		len(in.ExpectedProducts) == 1 && len(in.ExpectedProducts[0]) == 2 && in.ExpectedProducts[0][1] == "ip-"+vhExpectParam
+}
 
 func vhTaggedSteps(tag string) map[string]map[string]Metadata {
 	return map[string]map[string]Metadata{tag: {}}
@@ -53,7 +91,15 @@ func vhVerifyLayoutExpiration(layout Layout) error {
 		return VerifyLayoutExpiration(layout)
 	}
 	vhEvent("expiry")
-	vhProv(layout.Readme == vhLayoutTag)
+	// expiry is checked before or after substitution: the signed content as it is, or with this call's parameters
+	this := vhExpectParam
+	asSigned := true
+	if this != "" {
+		vhExpectParam = "{P}"
+		asSigned = vhLayoutContentOK(layout)
+		vhExpectParam = this
+	}
+	vhProv(layout.Readme == vhLayoutTag && (asSigned || vhLayoutContentOK(layout)))
 	if vhFail("expiry") {
 		return errors.New("vh: expired")
 	}
@@ -67,7 +113,7 @@ func vhLoadLayoutCertificates(layout Layout, pems [][]byte) (*x509.CertPool, *x5
 		return LoadLayoutCertificates(layout, pems)
 	}
 	vhEvent("certs")
-	vhProv(layout.Readme == vhLayoutTag && len(pems) == 1 && string(pems[0]) == "PEM-ARG")
+	vhProv(layout.Readme == vhLayoutTag && vhLayoutContentOK(layout) && len(pems) == 1 && string(pems[0]) == "PEM-ARG")
 	if vhFail("certs") {
 		return nil, nil, errors.New("vh: certs")
 	}
@@ -80,7 +126,7 @@ func vhLoadLinksForLayout(layout Layout, linkDir string) (map[string]map[string]
 		return LoadLinksForLayout(layout, linkDir)
 	}
 	vhEvent("load")
-	vhProv(layout.Readme == vhLayoutTag && linkDir == "LINKDIR-ARG")
+	vhProv(layout.Readme == vhLayoutTag && vhLayoutContentOK(layout) && linkDir == "LINKDIR-ARG")
 	if vhFail("load") {
 		return nil, errors.New("vh: load")
 	}
@@ -92,7 +138,7 @@ func vhVerifyLinkSignatureThesholds(layout Layout, md map[string]map[string]Meta
 		return VerifyLinkSignatureThesholds(layout, md, root, interm)
 	}
 	vhEvent("thresholds")
-	vhProv(layout.Readme == vhLayoutTag && vhHasTag(md, "loaded") && root == vhRootPool && interm == vhIntermPool && root != nil)
+	vhProv(layout.Readme == vhLayoutTag && vhLayoutContentOK(layout) && vhHasTag(md, "loaded") && root == vhRootPool && interm == vhIntermPool && root != nil)
 	if vhFail("thresholds") {
 		return nil, errors.New("vh: thresholds")
 	}
@@ -104,7 +150,7 @@ func vhVerifySublayouts(layout Layout, md map[string]map[string]Metadata, linkPa
 		return VerifySublayouts(layout, md, linkPath, pems, lineNorm)
 	}
 	vhEvent("sublayouts")
-	vhProv(layout.Readme == vhLayoutTag && vhHasTag(md, "verified") && linkPath == "LINKDIR-ARG" && len(pems) == 1 && lineNorm)
+	vhProv(layout.Readme == vhLayoutTag && vhLayoutContentOK(layout) && vhHasTag(md, "verified") && linkPath == "LINKDIR-ARG" && len(pems) == 1 && lineNorm)
 	if vhFail("sublayouts") {
 		return nil, errors.New("vh: sublayouts")
 	}
@@ -127,7 +173,7 @@ func vhReduceStepsMetadata(layout Layout, md map[string]map[string]Metadata) (ma
 		return ReduceStepsMetadata(layout, md)
 	}
 	vhEvent("reduce")
-	vhProv(layout.Readme == vhLayoutTag && vhHasTag(md, "resolved"))
+	vhProv(layout.Readme == vhLayoutTag && vhLayoutContentOK(layout) && vhHasTag(md, "resolved"))
 	if vhFail("reduce") {
 		return nil, errors.New("vh: reduce")
 	}
@@ -147,7 +193,7 @@ func vhVerifyArtifacts(items []interface{}, md map[string]Metadata) error {
 		ok := len(items) == 1 && hasReduced && len(md) == 1
 		if ok {
 			st, isStep := items[0].(Step)
-			ok = isStep && st.Name == "the-step"
+			ok = isStep && st.Name == "the-step" && vhStepContentOK(st)
 		}
 		vhProv(ok)
 		if vhFail("rules-steps") {
@@ -169,13 +215,14 @@ func vhVerifyArtifacts(items []interface{}, md map[string]Metadata) error {
 }
 
 var vhRunDirArg string
+var vhUseDSSEArg bool // the entry point passes true exactly when the layout came in a DSSE envelope
 
 func vhRunInspections(layout Layout, runDir string, lineNorm bool, useDSSE bool) (map[string]Metadata, error) {
 	if !vStubOn("stages") {
 		return RunInspections(layout, runDir, lineNorm, useDSSE)
 	}
 	vhEvent("inspections")
-	vhProv(layout.Readme == vhLayoutTag && runDir == vhRunDirArg && lineNorm && !useDSSE)
+	vhProv(layout.Readme == vhLayoutTag && vhLayoutContentOK(layout) && runDir == vhRunDirArg && lineNorm && useDSSE == vhUseDSSEArg)
 	if vhFail("inspections") {
 		return nil, errors.New("vh: inspection failed")
 	}
@@ -191,7 +238,7 @@ func vhGetSummaryLink(layout Layout, reduced map[string]Metadata, stepName strin
 	}
 	vhEvent("summary")
 	_, hasReduced := reduced["reduced"]
-	vhProv(layout.Readme == vhLayoutTag && hasReduced && stepName == vhStepNameArg && !useDSSE)
+	vhProv(layout.Readme == vhLayoutTag && vhLayoutContentOK(layout) && hasReduced && stepName == vhStepNameArg && useDSSE == vhUseDSSEArg)
 	if vhFail("summary") {
 		return nil, errors.New("vh: summary")
 	}
@@ -358,6 +405,72 @@ func vhC01(a []int, twin bool) {
 	if len(stages) < len(vhStageOrder) {
 		vAssert("C01.incomplete-run-is-an-error", err != nil && res == nil)
 	}
+	vReach("C01.end")
+}
+
+// vh_C01_reverify: one layout object is verified several times in a row with
+// different parameter dictionaries; in every call each stage must see the signed
+// content with that call's parameters — never what an earlier call left behind.
+// a = {entry point, #verifications, wrapper (0 model metadata, 1 real Metablock, 2 real DSSE envelope)}
+func vh_C01_reverify(a []int) {
+	entry, rounds, wrapper := a[0], a[1], a[2]
+	layout := Layout{Type: "layout", Readme: vhLayoutTag,
+		Steps: []Step{{Type: "step", ExpectedCommand: []string{"run", "{P}"}, SupplyChainItem: SupplyChainItem{Name: "the-step",
+			ExpectedMaterials: [][]string{{"ALLOW", "m-{P}"}}, ExpectedProducts: [][]string{{"ALLOW", "p-{P}"}}}}},
+		Inspect: []Inspection{{Type: "inspection", Run: []string{"sh", "{P}"}, SupplyChainItem: SupplyChainItem{Name: "the-inspection",
+			ExpectedMaterials: [][]string{{"ALLOW", "im-{P}"}}, ExpectedProducts: [][]string{{"ALLOW", "ip-{P}"}}}}}}
+	k := vhFKey(0)
+	var env Metadata
+	switch wrapper {
+	case 0:
+		env = &vhMeta{tag: "layout", payload: layout, sigs: []Signature{{KeyID: k.KeyID, Sig: "00"}}}
+	case 1:
+		env = &Metablock{Signed: layout, Signatures: []Signature{}}
+	default:
+		e := &Envelope{}
+		if err := e.SetPayload(layout); err != nil {
+			vFail("SetPayload")
+		}
+		env = e
+	}
+	keys := map[string]Key{}
+	if wrapper == 0 {
+		keys[k.KeyID] = k
+	} else {
+		rk := vhEdKey(0, true)
+		if err := env.Sign(rk); err != nil {
+			vFail("sign")
+		}
+		pk := vhEdKey(0, false)
+		keys[pk.KeyID] = pk
+	}
+	vhStepNameArg = ""
+	vhUseDSSEArg = wrapper == 2
+	for r := 0; r < rounds; r++ {
+		vhEvents, vhProvenanceOK, vhProvFailedAt = nil, true, ""
+		params := map[string]string{}
+		vhExpectParam = "{P}"
+		if v := vChoice("param", 3); v > 0 {
+			vhExpectParam = []string{"", "one", "two"}[v]
+			params["P"] = vhExpectParam
+		}
+		var err error
+		if entry == 0 {
+			vhRunDirArg = ""
+			_, err = InTotoVerify(env, keys, "LINKDIR-ARG", "", params, [][]byte{[]byte("PEM-ARG")}, true)
+		} else {
+			vhRunDirArg = "RUNDIR-ARG"
+			_, err = InTotoVerifyWithDirectory(env, keys, "LINKDIR-ARG", "RUNDIR-ARG", "", params, [][]byte{[]byte("PEM-ARG")}, true)
+		}
+		vObserve("reverify", r, err == nil, len(vhEvents), vhProvFailedAt)
+		vAssert("C01.every-call-enforces-the-signed-content-with-its-own-parameters", vhProvenanceOK)
+		if wrapper != 0 {
+			// nothing but a stage failure can reject the genuine layout, whatever was verified before
+			failed := len(vhEvents) > 0 && err != nil
+			vAssert("C01.genuine-layout-still-verifies-on-a-later-call", err == nil || failed)
+		}
+	}
+	vhExpectParam, vhUseDSSEArg = "", false
 	vReach("C01.end")
 }
 
